@@ -1,4 +1,4 @@
-From V Require Import model.Base model.Conc model.Events model.Event.
+From V Require Import model.Base model.Conc model.Events model.Event model.EventPort.
 Require Extraction.
 Require Import ExtrOcamlBasic.
 Extraction Language OCaml.
@@ -17,5 +17,10 @@ Definition ev_asleep := Event.asleep_b.
 Definition ev_lost_wakeup := Event.lost_wakeup_b.
 Definition ev_bad_window := Event.bad_window_b.
 Definition ev_undelivered := Event.undelivered_b.
-Extraction "../ocaml/c05/model.ml" ev_step1 ev_init ev_pols ev_kinds ev_modes ev_words ev_obs ev_ghost ev_pend ev_local
+Definition port_step := EventPort.pstep.
+Definition port_init := EventPort.pinit.
+Definition port_ops := (EventPort.PCreateN, EventPort.PDropN).
+Definition port_op (tag k : N) : EventPort.pop :=
+  match tag with 0 => EventPort.PCreateL k | 1 => EventPort.PDropL k | 2 => EventPort.PNotify k | _ => EventPort.PWait k end.
+Extraction "../ocaml/c05/model.ml" port_step port_init port_ops port_op ev_step1 ev_init ev_pols ev_kinds ev_modes ev_words ev_obs ev_ghost ev_pend ev_local
   ev_asleep ev_lost_wakeup ev_bad_window ev_undelivered N.of_nat N.to_nat.
